@@ -293,6 +293,28 @@ def buffer_tables(prog, chk):
                 inst = "KSI_TlvElement_serialize[len=%d,tag=%#x,opt=%d,buffer=%s]" % (L, tag, opt, "none" if B is None else B)
                 judge(inst, fe, I, I.run(), B or 0, need, hdr, L, expect_refusal_allowed=True, moved=("block" if opt == 0 else None), has_buf=B is not None, outkey=("*" + en[3],))
 
+    # ---- tlv_element.c: nested element with two raw children (children are written before the parent's own capacity check)
+    for (L0, L1) in ((1, 2), (0, 0), (3, 300)):
+        h0, h1 = ref_header(1, L0, 0, 0), ref_header(2, L1, 0, 0)
+        inner = len(h0) + L0 + len(h1) + L1
+        hdr = ref_header(5, inner, 0, 0)
+        need = inner + len(hdr)
+        for B in sorted({max(0, need + d) for d in (-7, -5, -2, -1, 0, 1)} | {0, 1, L1, inner}):
+            for opt in (0, NOMOVE):
+                lists = {"SUB": [Ptr("C0"), Ptr("C1")]}
+                length, element_at = list_overrides(lists)
+                inputs = {en[0]: Ptr("E"), en[1]: Ptr("BUF"), en[2]: B, en[3]: Ptr("OUT"), en[4]: opt, "E->subList": Ptr("SUB"), "E->ptr": Ptr("SRC"),
+                          "E->ftlv.dat_len": 99, "E->ftlv.hdr_len": 2, "E->ftlv.tag": 5, "E->ftlv.is_nc": 0, "E->ftlv.is_fwd": 0}
+                for k, (Lk, tg) in enumerate(((L0, 1), (L1, 2))):
+                    inputs.update({"C%d->subList" % k: 0, "C%d->ptr" % k: Ptr("SRC%d" % k), "C%d->ftlv.dat_len" % k: Lk, "C%d->ftlv.hdr_len" % k: 2,
+                                   "C%d->ftlv.tag" % k: tg, "C%d->ftlv.is_nc" % k: 0, "C%d->ftlv.is_fwd" % k: 0})
+                ov4 = {"memcpy": lambda I, p, n, a: a[0], "memmove": lambda I, p, n, a: a[0], "KSI_TlvElementList_length": length,
+                       "KSI_TlvElementList_elementAt": element_at}
+                I = BufInterp(fe, {"BUF": B}, inputs=inputs, call_model=inline_model(prog, {"KSI_TlvElement_serialize"}, fallback=succeed_model(prog, ov4)),
+                              on_unknown="stop", prog=prog, loop_bound=8)
+                inst = "KSI_TlvElement_serialize[nested children %d+%d bytes,buffer=%d,%s]" % (L0, L1, B, "in place" if opt else "moved to front")
+                judge(inst, fe, I, I.run(), B, need, hdr, 0, expect_refusal_allowed=True, moved=(None if opt else "block"), outkey=("*" + en[3],))
+
 
 def remap_table(prog, chk):
     """remap() (used by KSI_TlvElement_detach): after re-serialization every node points at its own element in the new buffer, whatever
